@@ -13,7 +13,7 @@ From Verif.Match Require Import Match.
 From Verif.Util Require Import IdSeq.
 From Verif.Txn Require Import Txn.
 From Verif.Cli Require Import Options.
-From Verif.Client Require Import ClTypes ClStep ClKeepalive Sound_Client Sound_ClTimed.
+From Verif.Client Require Import ClTypes ClStep ClKeepalive Sound_Client Sound_ClTimed Sound_KaGap.
 From Verif.System Require Import Compose.
 
 Definition nmap_empty : topic_map := ∅.
@@ -32,4 +32,4 @@ Extraction "model.ml"
   parse_options tool_cfg gateway_starts client_tool_starts parse_line
   chk_C23c chk_C27 chk_C17 chk_C31c cmon_init cmon_step
   sys_init sys_step sys_run broker_init cl_next_deadline gw_next_deadline
-  emon_init emon_step mon6_init mon6_step chk_C06c c34_excluded clock_ok adv_ok cl_fresh chk_C16 ka_init ka_step ka_run ko_cl kmon_init kmon_step kmon_run chk_C27b.
+  emon_init emon_step mon6_init mon6_step chk_C06c c34_excluded clock_ok adv_ok cl_fresh chk_C16 ka_init ka_step ka_run ko_cl kmon_init kmon_step kmon_run chk_C27b ka_user_ok ka_clock_ok.
